@@ -47,6 +47,10 @@ def build_rule(rr):
     if rr["cast"]:
         # {type: function}: one cast function per source type
         cast = {str: CASTS[rr["cast"][0]][1]}
+        if len(rr["cast"]) > 1:
+            # several entries: the first one's source type never matches a JSON-like node, the loop must go on
+            import pathlib
+            cast = {pathlib.Path: CASTS[rr["cast"][1]][1], **cast}
     return Rule(DP.DataPath(*parts), cond, cast=cast)
 
 
@@ -54,8 +58,10 @@ def rule_py(rr):
     parts = ", ".join(terms.part_py(p) for p in rr["parts"])
     cast = ""
     if rr["cast"]:
-        fn = {"bool": "cast_string_to_bool", "int": "int"}[rr["cast"][0]]
-        cast = f", cast={{str: {fn}}}"
+        names = {"bool": "cast_string_to_bool", "int": "int"}
+        fn = names[rr["cast"][0]]
+        extra = f"pathlib.Path: {names[rr['cast'][1]]}, " if len(rr["cast"]) > 1 else ""
+        cast = f", cast={{{extra}str: {fn}}}"
     return f"Rule(DataPath({parts}), {terms.tree_py(rr['cond'])}{cast})"
 
 
